@@ -1,9 +1,14 @@
 (* C07 — property theorems only.  The cleaner's restructuring idioms keep the visible words, on the heap
-   model of C05 (words h r = in-order words of the tree below r).  NOT proved: that the composition of the
-   ~58 passes is lossless - decided by the verified monitor (extracted cwords before/after clean_all). *)
+   model of C05 (words h r = in-order words of the tree below r); whole passes built only from these idioms
+   (generic edit passes, fix_paragraphs, the remove_breaking_returns loop, fix_nesting) and any sequence of
+   them keep well-formedness and the words.  NOT proved: that the composition of ALL ~58 real passes is
+   lossless (passes iterating over a live child list, passes creating nodes, the table passes are not
+   modelled) - decided by the verified monitor (extracted cwords before/after clean_all). *)
 From Coq Require Import List NArith Bool.
-From MW Require Import C05.Heap C05.TreeOps C06.Model.
+From MW Require Import C05.Heap C05.TreeOps C06.Model C06.ModelNesting.
 From MW Require C05.ProofsApi C07.Proofs C07.ProofsExtra C06.Proofs.
+From MW Require C06.ProofsNesting C06.ProofsNestingExtra.
+From MW Require C06.ModelNav C07.ModelPasses C07.ProofsPasses C07.ProofsPassesExtra.
 Import ListNotations.
 
 (* the visible words of a tree are the concatenation of its nodes' own words in preorder: an operation
@@ -71,3 +76,124 @@ Example C07_drop_loses_words :
   exists h', remove_child ProofsExtra.hd 2 3 = Ok h' /\ wfb h' 1 = true /\ words h' 1 = [7]%N.
 Proof. exact ProofsExtra.drop_example. Qed.
 Print Assumptions C07_drop_loses_words.
+
+(* ---- idiom 3, the whole of it: fix_nesting (treecleaner.py:850-904; model C06/ModelNesting.v, labelled trees,
+   identity-based marks = the behaviour since fix commit 09d8eb0, any forbidden/invisible tables).
+   Every iteration, and hence the loop, keeps the in-order words when words sit on childless nodes only
+   (leafwords: true of the harness' tokenisation) and the node identities are distinct *)
+Theorem C07_fix_nesting_step_preserves_words : forall forb invis t t', NoDup (lids t) -> leafwords t = true ->
+  nest_step forb invis eq_id t = NMoved t' -> lwords t' = lwords t.
+Proof. exact ProofsNesting.nest_step_keeps_words. Qed.
+Print Assumptions C07_fix_nesting_step_preserves_words.
+
+Theorem C07_fix_nesting_preserves_words : forall forb invis fuel t t', NoDup (lids t) -> leafwords t = true ->
+  fix_nesting forb invis eq_id fuel t = NDone t' -> lwords t' = lwords t.
+Proof. exact ProofsNesting.fix_nesting_keeps_words. Qed.
+Print Assumptions C07_fix_nesting_preserves_words.
+
+(* the labelled tree read off a heap has exactly the heap's words (connection with words_t of C05/Heap.v) *)
+Theorem C07_labelled_tree_words : forall h exc t, lwords (lt_of h exc t) = words_t h t.
+Proof. exact ProofsNesting.lwords_lt_of. Qed.
+Print Assumptions C07_labelled_tree_words.
+
+(* REFUTED for the code as it was before 09d8eb0: _mark_nodes compared with Node.__eq__ (structural); one iteration
+   on Article[Code[x, Pre[a], z, Pre[a], y]] drops the second `a` (words 101 102 103 102 104 -> 101 102 103 104) *)
+Theorem C07_fix_nesting_structural_eq_refuted :
+  exists t, NoDup (lids t) /\ leafwords t = true /\
+    (exists t', nest_step forb_real invis_real eq_struct t = NMoved t' /\
+                lwords t = [101; 102; 103; 102; 104]%N /\ lwords t' = [101; 102; 103; 104]%N) /\
+    (exists t', nest_step forb_real invis_real eq_id t = NMoved t' /\ lwords t' = lwords t).
+Proof. exact ProofsNestingExtra.fix_nesting_structural_eq_refuted. Qed.
+Print Assumptions C07_fix_nesting_structural_eq_refuted.
+
+(* ---- whole passes.  Generic model C07/ModelPasses.v: preorder traversal over a COPY of node.children that,
+   where `act` says so and node.parent exists, dissolves the visited node (replace_child(node, node.children),
+   with or without `return`) or removes it (remove_child + return).  Instances in treecleaner.py:
+   remove_list_only_paragraphs, remove_textless_styles, remove_invisible_links (remove_empty_sections and
+   the else-branch of remove_no_print_nodes are instances of the model but drop words by design); passes
+   iterating over the live list are NOT covered (list with reasons in C07/ProofsPasses.v).
+   For EVERY act such that dissolved nodes have no own words and pruned nodes no words below them (under an
+   invariant I about classes/own words): on a proper tree the pass terminates with fuel = number of nodes,
+   raises nothing, leaves a proper tree with the same root and the same visible words. *)
+Theorem C07_edit_pass_preserves_words : forall act ret (I : heap -> Prop), C07.ProofsPasses.tc_closed I ->
+  (forall h n, I h -> act h n = C07.ModelPasses.ADissolve -> textof h n = []) ->
+  (forall h n, I h -> act h n = C07.ModelPasses.APrune -> words h n = []) ->
+  forall h r, I h -> WF h r ->
+  exists h', C07.ModelPasses.edit_pass act ret h r = Done h' /\ I h' /\ WF h' r /\
+             words h' r = words h r /\ C07.Proofs.same_tc h h'.
+Proof. exact C07.ProofsPasses.edit_pass_ok. Qed.
+Print Assumptions C07_edit_pass_preserves_words.
+
+Theorem C07_dissolve_pass_preserves_words : forall sel ret (I : heap -> Prop), C07.ProofsPasses.tc_closed I ->
+  (forall h n, I h -> sel h n = true -> textof h n = []) ->
+  forall h r, I h -> WF h r ->
+  exists h', C07.ModelPasses.dissolve_pass sel ret h r = Done h' /\ I h' /\ WF h' r /\ words h' r = words h r.
+Proof. exact C07.ProofsPasses.dissolve_pass_ok. Qed.
+Print Assumptions C07_dissolve_pass_preserves_words.
+
+Theorem C07_prune_pass_preserves_words : forall sel (I : heap -> Prop), C07.ProofsPasses.tc_closed I ->
+  (forall h n, I h -> sel h n = true -> words h n = []) ->
+  forall h r, I h -> WF h r ->
+  exists h', C07.ModelPasses.prune_pass sel h r = Done h' /\ I h' /\ WF h' r /\ words h' r = words h r.
+Proof. exact C07.ProofsPasses.prune_pass_ok. Qed.
+Print Assumptions C07_prune_pass_preserves_words.
+
+(* composition: ANY list of safe passes run one after the other stops, and a normal return leaves a proper
+   tree with the same visible words (induction over the list); edit passes, fix_paragraphs and the
+   remove_breaking_returns loop at the root are safe *)
+Theorem C07_run_passes_preserves_words : forall (I : heap -> Prop) ps,
+  Forall (C07.ProofsPasses.safe_pass I) ps -> forall h r, I h -> WF h r ->
+  C07.ModelPasses.run_passes ps h r <> OutOfFuel /\
+  (forall h', C07.ModelPasses.run_passes ps h r = Done h' -> I h' /\ WF h' r /\ words h' r = words h r).
+Proof. exact C07.ProofsPasses.run_passes_safe. Qed.
+Print Assumptions C07_run_passes_preserves_words.
+
+Theorem C07_edit_pass_safe : forall act ret (I : heap -> Prop), C07.ProofsPasses.tc_closed I ->
+  (forall h n, I h -> act h n = C07.ModelPasses.ADissolve -> textof h n = []) ->
+  (forall h n, I h -> act h n = C07.ModelPasses.APrune -> words h n = []) ->
+  C07.ProofsPasses.safe_pass I (C07.ModelPasses.edit_pass act ret).
+Proof. exact C07.ProofsPasses.edit_pass_safe. Qed.
+Print Assumptions C07_edit_pass_safe.
+
+Theorem C07_fix_paragraphs_safe : forall (I : heap -> Prop), C07.ProofsPasses.tc_closed I ->
+  C07.ProofsPasses.safe_pass I (fun h r => fix_paragraphs (fp_fuel h r) h r).
+Proof. exact C07.ProofsPasses.fix_paragraphs_safe. Qed.
+Print Assumptions C07_fix_paragraphs_safe.
+
+(* removal of wordless leaves: the `while changed` loop of remove_breaking_returns, for ANY candidate function,
+   when BreakingReturns are childless and carry no words *)
+Theorem C07_breaking_returns_preserves_words : forall (cand : heap -> N -> list N) r k h node h',
+  WF h r -> C06.ModelNav.br_leaf h -> br_loop cand k h node = Done h' ->
+  WF h' r /\ C06.ModelNav.br_leaf h' /\ words h' r = words h r.
+Proof. exact C07.ProofsPasses.br_loop_keeps_words. Qed.
+Print Assumptions C07_breaking_returns_preserves_words.
+
+Theorem C07_br_root_loop_safe : forall is_block blank,
+  C07.ProofsPasses.safe_pass C06.ModelNav.br_leaf
+    (fun h r => if N.eqb (clsof h r) c_BR then Done h
+                else br_loop (C06.ModelNav.cand_real is_block blank) (S (count_br h r)) h r).
+Proof. exact C07.ProofsPasses.br_root_loop_safe. Qed.
+Print Assumptions C07_br_root_loop_safe.
+
+Example C07_dissolve_pass_example :
+  WF ProofsPassesExtra.hx 1 /\
+  exists h', C07.ModelPasses.dissolve_pass ProofsPassesExtra.sel_div false ProofsPassesExtra.hx 1 = Done h' /\
+             kids h' 2 = [4; 5; 7; 8]%N /\ wfb h' 1 = true /\ words h' 1 = [5; 6; 7]%N /\
+             words ProofsPassesExtra.hx 1 = [5; 6; 7]%N.
+Proof. exact ProofsPassesExtra.dissolve_pass_example. Qed.
+Print Assumptions C07_dissolve_pass_example.
+
+Example C07_run_passes_example :
+  exists h', C07.ModelPasses.run_passes [C07.ModelPasses.dissolve_pass ProofsPassesExtra.sel_div false;
+                                         C07.ModelPasses.prune_pass ProofsPassesExtra.sel_br]
+                                        ProofsPassesExtra.hx 1 = Done h' /\
+             kids h' 2 = [4; 7; 8]%N /\ wfb h' 1 = true /\ words h' 1 = words ProofsPassesExtra.hx 1.
+Proof. exact ProofsPassesExtra.run_passes_example. Qed.
+Print Assumptions C07_run_passes_example.
+
+Example C07_run_passes_example_safe :
+  Forall (C07.ProofsPasses.safe_pass ProofsPassesExtra.inv)
+         [C07.ModelPasses.dissolve_pass ProofsPassesExtra.sel_div false;
+          C07.ModelPasses.prune_pass ProofsPassesExtra.sel_br].
+Proof. exact ProofsPassesExtra.run_passes_example_safe. Qed.
+Print Assumptions C07_run_passes_example_safe.
